@@ -1063,6 +1063,34 @@ pub fn c14_scenarios(ns: &[u64], spins: &[(usize, usize)]) -> Vec<Scn> {
                 vec![op(TryRecv, R0)],
             ];
             out.push(s);
+            // two handles of one stream use the direct blocking recv() / try_recv
+            // while a sink task sends two values: a receive that pins a slot,
+            // loses the value to its sibling and goes to sleep inside recv() must
+            // not leave the sender that was refused for the pin parked
+            for (nm, second) in [("recv", Recv), ("tryrecv", TryRecv)] {
+                let mut s = Scn::new(&name("c14-sink-vs-direct-recv-on-shared-stream", nm), cfg);
+                s.prefix = vec![opd(CloneH, R0, R1)];
+                s.threads = vec![
+                    vec![opv(SinkSend, S0, 1), opv(SinkSend, S0, 2), op(DropH, S0)],
+                    vec![op(Recv, R0)],
+                    vec![op(second, R1)],
+                ];
+                s.slow = 1;
+                out.push(s);
+            }
+            // a sibling handle subscribes a new stream while the main handle takes
+            // the last value directly: the new stream is published at a stale
+            // position (holding the writers back) and then moved forward - a
+            // sender refused in between must not stay parked
+            let mut s = Scn::new("c14-sink-vs-direct-recv-vs-add-stream", cfg);
+            s.prefix = vec![opd(CloneH, R0, R1)];
+            s.prefix.extend(prep(St::Full, n, &[R0]));
+            s.threads = vec![
+                vec![opv(SinkSend, S0, 1)],
+                vec![op(TryRecv, R0)],
+                vec![opd(AddStream, R1, R2), op(TryRecv, R2)],
+            ];
+            out.push(s);
             // receiver is dropped while the sink is parked (other stream remains)
             let mut s = Scn::new("c14-sink-parked-vs-stream-removed", cfg);
             s.prefix = vec![opd(AddStream, R0, R1)];
